@@ -1,21 +1,25 @@
 ----------------------------- MODULE GenBackoff -----------------------------
 (* Outcome-sequence generator for the retry/back-off drivers (C09 b, C16). *)
 EXTENDS Backoff, Json, IOUtils
-VARIABLES script, done
+VARIABLES script, done, histB
 GenDepth == IF "GEN_DEPTH" \in DOMAIN IOEnv THEN atoi(IOEnv.GEN_DEPTH) ELSE 8
-gvars == <<n, hist, script, done>>
+gvars == <<n, hist, script, done, histB>>
+(* GEN_TWO=1: the second item fails too, with an outcome sequence of its own (a failing item must not hold up another one's retry) *)
+Two == "GEN_TWO" \in DOMAIN IOEnv /\ IOEnv.GEN_TWO = "1"
 (* GEN_ERRONLY=1: long streaks of consecutive failures (the back-off has to stay at its cap however long the item keeps failing) *)
 ErrOnly == "GEN_ERRONLY" \in DOMAIN IOEnv /\ IOEnv.GEN_ERRONLY = "1"
 Os == IF ErrOnly THEN <<"err", "err", "err", "err", "err", "err", "err", "panic">>
       ELSE <<"ok", "err", "err", "err", "panic", "requeue", "requeueErr", "skip">>
-GenInit == Init /\ script = <<>> /\ done = FALSE
+GenInit == Init /\ script = <<>> /\ done = FALSE /\ histB = <<>>
 GenStep ==
   \E o \in {Os[RandomElement(1..Len(Os))]}, d \in {RandomElement(Delays)},
      gap \in {RandomElement({0, 100, 400, 2000, 30000})}, ta \in {RandomElement({0, 0, 0, 1})}, tb \in {RandomElement({0, 0, 1})} :
        /\ Step(o, IF o \in {"requeue", "requeueErr"} THEN d ELSE 0)
        /\ script' = Append(script, [gap |-> gap, ta |-> ta, tb |-> tb])
+       /\ \E ob \in {Os[RandomElement(1..Len(Os))]}, db \in {RandomElement(Delays)} :
+            histB' = IF Two THEN Append(histB, [o |-> ob, d |-> IF ob \in {"requeue", "requeueErr"} THEN db ELSE 0]) ELSE histB
        /\ UNCHANGED done
-Finish == ~done /\ PrintT(<<"BEH", ToJson([outcomes |-> hist, script |-> script])>>) /\ done' = TRUE /\ UNCHANGED <<n, hist, script>>
+Finish == ~done /\ PrintT(<<"BEH", ToJson([outcomes |-> hist, outcomesB |-> histB, script |-> script])>>) /\ done' = TRUE /\ UNCHANGED <<n, hist, script, histB>>
 GenNext == IF Len(hist) >= GenDepth THEN Finish ELSE ~done /\ GenStep
 GenSpec == GenInit /\ [][GenNext]_gvars
 =============================================================================
